@@ -4,6 +4,7 @@ go 1.23
 
 require (
 	github.com/absolute8511/redcon v0.9.3
+	github.com/gobwas/glob v0.2.3
 	github.com/youzan/ZanRedisDB v0.0.0
 	golang.org/x/net v0.0.0-20191209160850-c0dbc17a3553
 	pgregory.net/rapid v1.3.0
@@ -32,7 +33,6 @@ require (
 	github.com/dustin/go-humanize v1.0.0 // indirect
 	github.com/emirpasic/gods v1.12.0 // indirect
 	github.com/getsentry/raven-go v0.2.0 // indirect
-	github.com/gobwas/glob v0.2.3 // indirect
 	github.com/gogo/protobuf v1.3.1 // indirect
 	github.com/golang/protobuf v1.3.2 // indirect
 	github.com/golang/snappy v0.0.2-0.20190904063534-ff6b7dc882cf // indirect
